@@ -59,6 +59,14 @@ def run_the_case(p):
             leaf = rng.choice([('pred_cls', 0, lim), ('pred_fn', 0, lim), ('cmp', 'gt', ('attr', 0, 'size'), ('lit', lim))]
                               if 'pred' in p.get('vocab', ()) else [('cmp', 'gt', ('attr', 0, 'size'), ('lit', lim))])
             cond = leaf if rng.random() < 0.6 else ('and', leaf, ('cmp', 'ge', ('attr', 0, 'size'), ('lit', 0)))
+            if p.get('shape') == 'and_or':
+                # a disjunction of point conditions two conjunction levels below the descriptor; one alternative holds
+                n = len(dom)
+                pick = rng.randrange(n)
+                alts = [('cmp', 'eq', ('attr', 0, 'size'), ('lit', (pick + n + j) % (2 * n))) for j in (5, 0, 7)]
+                rng.shuffle(alts)
+                orr = ('or', ('or', alts[0], alts[1]), alts[2])
+                cond = ('and', ('and', orr, ('cmp', 'ge', ('attr', 0, 'size'), ('lit', 0))), ('cmp', 'le', ('attr', 0, 'size'), ('lit', n)))
     sat = [o for o in dom if O.holds(cond, {0: o})]
     want = ('value', id(sat[0])) if len(sat) == 1 else (('none',) if not sat else ('multiple',))
     try:
